@@ -517,6 +517,46 @@ through the verif hook before (complete previous state: all allocated rows, size
             Err(e) => run.fail_with_line(n, "", "c02:row-wrap:dictionary", &format!("the directed dictionary does not build/load: {}", e)),
         }
     }
+    // DIRECTED, oracle only: candidates of a character that has TWO classes which both offer unknown words.  Every candidate
+    // the provider produces has to reach the lattice: the cheapest chain is known in closed form (the one grouped word of the
+    // cheaper class over the whole run), whichever of the two classes is enumerated first.
+    if run.wants(n + 1) {
+        let pos = POS[0].join(",");
+        for (name, ck, cn) in [("two-classes:first-cheap", 100i32, 9000i32), ("two-classes:second-cheap", 9000, 100)] {
+            let wd = Workdir::new(&format!("C02-d-{}", name.replace(':', "-")));
+            wd.write("char.def", "DEFAULT 0 1 0\nKANJI 1 1 0\nKANJINUMERIC 1 1 0\n0x58F1 KANJI\n0x5F10 KANJI\n0x58F1 KANJINUMERIC\n0x5F10 KANJINUMERIC\n");
+            wd.write("unk.def", &format!("DEFAULT,0,0,20000,{p}\nKANJI,0,0,{ck},{p}\nKANJINUMERIC,0,0,{cn},{p}\n", p = pos, ck = ck, cn = cn));
+            let rows = vec![Row::simple("あ", 0, 0, 100, NOUN)];
+            let built = build_system(csv_of(&rows, &default_pos()).as_bytes(), "1 1\n0 0 0\n".as_bytes())
+                .and_then(|sys| load(&config_json(&wd, &[], &[crate::c13::mecab_json(), simple_oov_json(0, 0, 30000)], &[], &[]), sys, vec![]));
+            run.bump(&format!("directed:{}", name));
+            match built {
+                Ok(dic) => {
+                    for text in ["壱弐", "壱", "弐壱弐"] {
+                        let res = catch(|| {
+                            let mut tok = StatefulTokenizer::new(&dic, Mode::C);
+                            tok.reset().push_str(text);
+                            tok.do_tokenize().map_err(|e| format!("{:?}", e))?;
+                            let mut ml = MorphemeList::empty(&dic);
+                            ml.collect_results(&mut tok).map_err(|e| format!("{:?}", e))?;
+                            Ok::<(usize, i32), String>((ml.len(), ml.iter().last().map(|m| m.total_cost()).unwrap_or(0)))
+                        });
+                        let best = ck.min(cn);
+                        match res {
+                            Ok(Ok((toks, cost))) => {
+                                if toks != 1 || cost != best {
+                                    run.fail_with_line(n + 1, "", &format!("c02:{}:not-cheapest", name), &format!("text {:?}, every character in the classes KANJI (grouped word cost {}) and KANJINUMERIC (grouped word cost {}): the returned path has {} morphemes and cost {}, the grouped word of the cheaper class covers the text at cost {}", text, ck, cn, toks, cost, best));
+                                }
+                            }
+                            Ok(Err(e)) => run.fail_with_line(n + 1, "", &format!("c02:{}:error", name), &format!("text {:?}: {}", text, e)),
+                            Err(p) => run.fail_with_line(n + 1, "", &format!("c02:{}:panic", name), &format!("text {:?}: {}", text, p)),
+                        }
+                    }
+                }
+                Err(e) => run.fail_with_line(n + 1, "", &format!("c02:{}:dictionary", name), &format!("the directed dictionary does not build/load: {}", e)),
+            }
+        }
+    }
 }
 
 /// a world of C02: `World` + what the connection-cost plugins were told + the shape counters
